@@ -82,6 +82,19 @@ def check_function(chk, htu, row, cfg, callees):
                 loads = mr.raw_loads(inner) + [1 for x in pe.sym_walk(inner) if is_sym(x) and x.op == 'atomic-old']
                 if not loads:
                     probs.append('the reversal in the returned value is not applied to the loaded bytes: %r' % (s,))
+        # the module-visible value is the same function of the (reversed) bytes as on a little-endian host: the row's extension
+        if cls in ('load', 'atomic.load', 'atomic.rmw', 'atomic.cmpxchg') and sem['type'][0] == 'i':
+            Wres = mr.W_OF[sem['type']]
+            sl = runtime.sym_slice(p.ret)
+            want_ext = 's' if sem.get('ext') == 's' else 'z'
+            if sl[0] != 'slice':
+                probs.append('returned value %r is not an extension of the loaded bytes (%s)' % (p.ret, sl[1]))
+            else:
+                got = mr.canon_slice(sl)
+                if (got[1], got[2], got[3]) != ((access, want_ext, Wres) if access < Wres else (Wres, 'z', Wres)):
+                    probs.append('returns the %s-extension of %d loaded bits to %d bits; on a little-endian host (and in the specification) it is '
+                                 'the %s-extension of %d bits to %d: the value seen by the module depends on the host byte order'
+                                 % ('sign' if got[2] == 's' else 'zero', got[1], got[3], 'sign' if want_ext == 's' else 'zero', access, Wres))
         # value written to memory
         if cls in ('store', 'atomic.store', 'atomic.rmw', 'atomic.cmpxchg'):
             written = []
@@ -106,6 +119,15 @@ def check_function(chk, htu, row, cfg, callees):
                 if not (is_sym(top) and top.op == 'bswap%d' % access):
                     probs.append('value stored to memory is %r; expected a %d-bit byte reversal as the last step' % (val, access))
                     continue
+                # what is reversed is the low `access` bits of the value operand
+                if cls in ('store', 'atomic.store'):
+                    low = top.args[0]
+                    while is_sym(low) and low.op in ('bytes', 'cast'):
+                        if low.op == 'cast' and (ct.tinfo(low.ctype)[0] != 'int' or ct.tinfo(low.ctype)[1] < access):
+                            break
+                        low = low.args[0]
+                    if not (is_sym(low) and low.op == 'unk' and low.args[0] == 'value'):
+                        probs.append('the reversed value %r is not the low %d bits of the value operand' % (top.args[0], access))
                 inner = bswaps(top.args[0])
                 # reversals below the outermost one may only be the re-reversal of the loaded old value (RMW)
                 for s in inner:
